@@ -46,24 +46,45 @@ def richardson(f, x, j, h):
   return (4 * d(h / 2) - d(h)) / 3
 
 
-def compare(name, analytic, f, x, inp, tol=1e-4):
-  """analytic: array of d f / d x_j for every coordinate j of x (f scalar)."""
+def compare(name, analytic, f, x, inp, tol=1e-4, hvec=None, fscale=1.0):
+  """analytic: array of d f / d x_j for every coordinate j of x (f scalar).
+  hvec[j]: the natural unit of coordinate j (a length scale of the inputs, the size of a hyperparameter), fscale: the natural unit of f.  The
+  step ladder is taken in those units and the error is normalised by max(1e-3 * fscale / hvec[j], |g_j|): the reading of "equals the numerical
+  derivative" (DESIGN 11.5) is stated for problems of size one and carried to any other size by the change of units under which the property
+  is invariant.  With hvec = 1, fscale = 1 this is the comparison as it always was."""
+  hv = numpy.ones(len(x)) if hvec is None else numpy.asarray(hvec, dtype=float) * numpy.ones(len(x))
   best = None
   for h in (1e-2, 3e-3, 1e-3, 3e-4, 1e-4, 3e-5, 1e-5):
-    num = numpy.array([richardson(f, x, j, h) for j in range(len(x))])
-    err = numpy.abs(num - analytic) / numpy.maximum(1e-3, numpy.abs(analytic))
+    num = numpy.array([richardson(f, x, j, h * hv[j]) for j in range(len(x))])
+    err = numpy.abs(num - analytic) / numpy.maximum(1e-3 * fscale / hv, numpy.abs(analytic))
     e = float(err.max())
     if best is None or e < best[0]:
       best = (e, num)
     if e <= tol:
       return None
   return dict(signature=f"C04:{name}", what=f"{name}: analytic gradient differs from the Richardson-extrapolated central difference", input=inp,
-              observed=numpy.asarray(analytic).tolist(), expected=best[1].tolist(), oracle="Richardson central differences, step ladder 1e-2..1e-5")
+              observed=numpy.asarray(analytic).tolist(), expected=best[1].tolist(), oracle="Richardson central differences, step ladder 1e-2..1e-5 in the problem's own units")
+
+
+def rescale(gi, s, t):
+  """The same problem in other units: outputs measured in units of 1/s (values * s, variances * s^2: noise, process variance), inputs in units
+  of 1/t (points, evaluation points and length scales * t).  Every value / gradient pair of the property is covariant under this change
+  (means * s, variances * s^2, EI * s, probabilities and the EI-per-cost ratio unchanged, the likelihood shifted by a constant; gradients
+  / t), so a pair that is right at size one is right at every size - unless the code carries an absolute constant."""
+  cov = dict(gi["cov"])
+  cov["hp"] = [cov["hp"][0] * s * s] + [v * t for v in cov["hp"][1:]]
+  return dict(gi, cov=cov, points=[[v * t for v in row] for row in gi["points"]], xs=[[v * t for v in row] for row in gi["xs"]],
+              values=[v * s for v in gi["values"]], noise=[v * s * s for v in gi["noise"]])
 
 
 def oracle(inp):
   fam = inp["family"]
   gi = inp["gp"]
+  units = inp.get("units") or {}
+  us, ut = float(units.get("out", 1.0)), float(units.get("inp", 1.0))   # size of the outputs / of the inputs (1, 1: the problem as generated)
+  if units:
+    gi = rescale(gi, us, ut)
+    inp = dict(inp, thr=[v * us for v in inp["thr"]])
   rng = numpy.random.RandomState(inp["seed"])
   if fam == "kernel":
     cov = gpgen.make_cov(gi["cov"])
@@ -73,7 +94,7 @@ def oracle(inp):
     if inp.get("coincident"):
       z = x.copy()
     g = cov.grad_covariance(x[None, :], z[None, :])[0]
-    r = compare("kernel:grad_covariance", g, lambda p: float(cov.covariance(p[None, :], z[None, :])[0]), x, inp)
+    r = compare("kernel:grad_covariance", g, lambda p: float(cov.covariance(p[None, :], z[None, :])[0]), x, inp, hvec=ut, fscale=us * us)
     if r and not (inp.get("coincident") and gi["cov"]["cls"] != "SquareExponential" and False):
       return r
     hp = numpy.array(cov.hyperparameters, dtype=float)
@@ -81,46 +102,47 @@ def oracle(inp):
     def fh(h):
       c2 = gpgen.make_cov(dict(gi["cov"], hp=list(h)))
       return float(c2.covariance(x[None, :], z[None, :])[0])
-    r = compare("kernel:hyperparameter_grad_covariance", hg, fh, hp, inp)
+    hpunits = [us * us] + [ut] * (len(hp) - 1)
+    r = compare("kernel:hyperparameter_grad_covariance", hg, fh, hp, inp, hvec=hpunits, fscale=us * us)
     if r:
       return r
     pts = numpy.array(gi["points"], dtype=float)
     T = cov.build_kernel_grad_tensor(pts, x[None, :])[0]            # (n, dim)
     for jrow in (0, len(pts) - 1):
-      r = compare("kernel:build_kernel_grad_tensor", T[jrow], lambda p: float(cov.build_kernel_matrix(pts, p[None, :])[0, jrow]), x, inp)
+      r = compare("kernel:build_kernel_grad_tensor", T[jrow], lambda p: float(cov.build_kernel_matrix(pts, p[None, :])[0, jrow]), x, inp, hvec=ut, fscale=us * us)
       if r:
         return r
     H = cov.build_kernel_hparam_grad_tensor(pts)                    # (n, n, nh)
     def fm(h):
       return float(gpgen.make_cov(dict(gi["cov"], hp=list(h))).build_kernel_matrix(pts)[0, 1])
-    return compare("kernel:build_kernel_hparam_grad_tensor", H[0, 1], fm, hp, inp)
+    return compare("kernel:build_kernel_hparam_grad_tensor", H[0, 1], fm, hp, inp, hvec=hpunits, fscale=us * us)
   gp = gpgen.make_gp(gi)
   x = numpy.array(gi["xs"][0], dtype=float)
   if inp.get("on_data"):
     x = gp.points_sampled[0].copy()
   if inp.get("far"):
-    x = x + 3.0
+    x = x + 3.0 * ut
   if inp.get("very_far"):          # tens of length scales away from every observation (kernel sums of the order of 1e-10 and below)
     x = x + float(inp["very_far"])
   if inp.get("zero_coord") is not None:   # a coordinate that is exactly 0.0 (a bound, a one-hot entry): pow(0, k) terms of polynomial means
     x[int(inp["zero_coord"]) % len(x)] = 0.0
   if fam == "gp":
-    r = compare("gp:grad_mean", gp.compute_grad_mean_of_points(x[None, :])[0], lambda p: float(gp.compute_mean_of_points(p[None, :])[0]), x, inp)
+    r = compare("gp:grad_mean", gp.compute_grad_mean_of_points(x[None, :])[0], lambda p: float(gp.compute_mean_of_points(p[None, :])[0]), x, inp, hvec=ut, fscale=us)
     if r:
       return r
-    r = compare("gp:grad_variance", gp.compute_grad_variance_of_points(x[None, :])[0], lambda p: float(gp.compute_variance_of_points(p[None, :])[0]), x, inp)
+    r = compare("gp:grad_variance", gp.compute_grad_variance_of_points(x[None, :])[0], lambda p: float(gp.compute_variance_of_points(p[None, :])[0]), x, inp, hvec=ut, fscale=us * us)
     if r:
       return r
     m, v, gm, gv = gp.compute_mean_variance_grad_of_points(x[None, :])
-    if not (numpy.allclose(gm[0], gp.compute_grad_mean_of_points(x[None, :])[0], rtol=1e-9, atol=1e-12) and numpy.allclose(gv[0], gp.compute_grad_variance_of_points(x[None, :])[0], rtol=1e-9, atol=1e-12)):
+    if not (numpy.allclose(gm[0], gp.compute_grad_mean_of_points(x[None, :])[0], rtol=1e-9, atol=1e-12 * us / ut) and numpy.allclose(gv[0], gp.compute_grad_variance_of_points(x[None, :])[0], rtol=1e-9, atol=1e-12 * us * us / ut)):
       return dict(signature="C04:gp:joint-differs", what="joint mean/variance/gradient entry point differs from the separate ones", input=inp, observed=None, expected=None, oracle="equality of entry points")
     from libsigopt.compute.gaussian_process_sum import GaussianProcessSum
     gp2 = gpgen.make_gp(dict(gi, values=list(reversed(gi["values"]))))
     s = GaussianProcessSum([gp, gp2], [0.3, 0.7])
-    r = compare("gpsum:grad_mean", s.compute_grad_mean_of_points(x[None, :])[0], lambda p: float(s.compute_mean_of_points(p[None, :])[0]), x, inp)
+    r = compare("gpsum:grad_mean", s.compute_grad_mean_of_points(x[None, :])[0], lambda p: float(s.compute_mean_of_points(p[None, :])[0]), x, inp, hvec=ut, fscale=us)
     if r:
       return r
-    return compare("gpsum:grad_variance", s.compute_grad_variance_of_points(x[None, :])[0], lambda p: float(s.compute_variance_of_points(p[None, :])[0]), x, inp)
+    return compare("gpsum:grad_variance", s.compute_grad_variance_of_points(x[None, :])[0], lambda p: float(s.compute_variance_of_points(p[None, :])[0]), x, inp, hvec=ut, fscale=us * us)
   if fam in ("ei", "aei", "eiwf", "maf"):
     from libsigopt.compute.expected_improvement import AugmentedExpectedImprovement, ExpectedImprovement, ExpectedImprovementWithFailures
     from libsigopt.compute.multitask_acquisition_function import MultitaskAcquisitionFunction
@@ -137,15 +159,15 @@ def oracle(inp):
       x = x.copy()
       x[-1] = inp["cost"]
     val = float(af.evaluate_at_point_list(x[None, :])[0])
-    if val < 1e-12:
-      return None   # underflow region: the value is numerically zero and finite differences carry no information
+    if val < 1e-12 * us:
+      return None   # underflow region: the value is numerically zero (in the units of the outputs) and finite differences carry no information
     g = af.evaluate_grad_at_point_list(x[None, :])[0]
     jv, jg = af.joint_function_gradient_eval(x[None, :])
     if not (numpy.allclose(jv[0], val, rtol=1e-9, atol=1e-300) and numpy.allclose(jg[0], g, rtol=1e-9, atol=1e-300)):
       return dict(signature=f"C04:{fam}:joint-differs", what="joint value-and-gradient entry point differs from the separate ones", input=inp,
                   observed=[float(jv[0]), jg[0].tolist()], expected=[val, g.tolist()], oracle="equality of entry points")
-    scale = max(val, 1e-12)
-    r = compare(f"{fam}:grad", g / scale, lambda p: float(af.evaluate_at_point_list(p[None, :])[0]) / scale, x, inp)
+    scale = max(val, 1e-12 * us)
+    r = compare(f"{fam}:grad", g / scale, lambda p: float(af.evaluate_at_point_list(p[None, :])[0]) / scale, x, inp, hvec=ut)
     return r
   if fam == "pf":
     from libsigopt.compute.probabilistic_failures import ProbabilisticFailures, ProbabilisticFailuresCDF, ProductOfListOfProbabilisticFailures
@@ -154,7 +176,7 @@ def oracle(inp):
     if inp.get("zero_factor"):
       # a factor that is exactly 0.0 in double precision (threshold 1e4 below the posterior mean: norm.cdf underflows to 0, so does its
       # gradient): the product and its true gradient are 0; a leave-one-out product formed by division is 0/0 there
-      far = ProbabilisticFailuresCDF(gp, float(gp.compute_mean_of_points(x[None, :])[0]) - 1e4)
+      far = ProbabilisticFailuresCDF(gp, float(gp.compute_mean_of_points(x[None, :])[0]) - 1e4 * us)
       assert float(far.compute_probability_of_success(x[None, :])[0]) == 0.0
       models.append(ProductOfListOfProbabilisticFailures([models[0], far, models[1]]))
     for k, m in enumerate(models):
@@ -164,7 +186,7 @@ def oracle(inp):
       if not numpy.all(numpy.isfinite(g)):
         return dict(signature=f"C04:pf:{type(m).__name__}:non-finite-gradient", what="gradient of a success probability is not finite", input=inp,
                     observed=numpy.asarray(g).tolist(), expected="finite", oracle="finiteness")
-      r = compare(f"pf:{type(m).__name__}", g, lambda p: float(m.compute_probability_of_success(p[None, :])[0]), x, inp)
+      r = compare(f"pf:{type(m).__name__}", g, lambda p: float(m.compute_probability_of_success(p[None, :])[0]), x, inp, hvec=ut)
       if r:
         return r
       jv, jg = m.joint_function_gradient_eval(x[None, :])
@@ -188,14 +210,16 @@ def oracle(inp):
     if inp["auto_noise"]:
       # the default nugget 1e-10 makes K numerically singular (finite differences of the likelihood are then rounding noise):
       # move to a nugget of the order of the noise before differentiating
-      h0[-1] = numpy.log(1e-2) if inp["log_domain"] else 1e-2
+      h0[-1] = numpy.log(1e-2 * us * us) if inp["log_domain"] else 1e-2 * us * us
       ll.hyperparameters = h0
     g = ll.compute_grad_log_likelihood()
     def f(h):
       ll.hyperparameters = h
       v = float(ll.compute_log_likelihood())
       return v
-    r = compare("loglik:grad", g, f, h0, inp, tol=2e-4)
+    # units of the hyperparameters: the process variance and the nugget are variances, the rest are lengths; in the log parameterisation every step is a ratio already
+    hunits = None if inp["log_domain"] else [us * us] + [ut] * (len(gi["cov"]["hp"]) - 1) + ([us * us] if inp["auto_noise"] else [])
+    r = compare("loglik:grad", g, f, h0, inp, tol=2e-4, hvec=hunits)
     ll.hyperparameters = h0
     return r
   raise ValueError(fam)
@@ -219,6 +243,10 @@ def gen_input(rng):
     inp["very_far"] = rng.choice([7.5, 8.0, 8.4, 8.7, 9.0, 9.5, 10.0]) / math.sqrt(len(gi["points"][0]))
   if fam == "maf" and len(gi["points"][0]) < 2:
     inp["family"] = "ei"
+  if fam != "spe" and rng.random() < 0.5:
+    # the same well-conditioned problem in other units (see rescale): objective values of size 1e-9 .. 1e4 (process variance 1e-18 .. 1e8, predicted
+    # standard deviations far below / above anything an absolute constant in the code would have been tuned for), inputs of size 1e-2 .. 1e2
+    inp["units"] = dict(out=10.0 ** rng.uniform(-9, 4), inp=(1.0 if inp["family"] == "maf" or rng.random() < 0.5 else 10.0 ** rng.uniform(-2, 2)))
   return inp
 
 
@@ -241,7 +269,8 @@ def search(ctx, hints, broken):
       fails.append(r)
       if len(fails) >= 3:
         break
-  return dict(evaluations=n, failures=fails, oracle="Richardson-extrapolated central differences in a well-conditioned regime (noise >= 1e-3, length scales 0.15-0.5), error normalised by max(1e-3, |g|), tolerance 1e-4")
+  return dict(evaluations=n, failures=fails, oracle="Richardson-extrapolated central differences in a well-conditioned regime (noise >= 1e-3 of the process variance scale, length scales 0.15-0.5 of the input scale), "
+                     "steps and the floor of the error normalisation max(1e-3, |g|) taken in the problem's own units (outputs 1e-9..1e4, inputs 1e-2..1e2), tolerance 1e-4")
 
 
 def replay(ctx, payload):
@@ -251,3 +280,11 @@ def replay(ctx, payload):
 LEVEL_TEXT += ("; the polynomial part of the GP mean gradient is discharged: every entry of build_grad_polynomial_tensor is the partial derivative of the "
                "corresponding entry of build_polynomial_matrix (Model/Poly.v, tied by exact correspondence)")
 TECHNIQUE += " + in-Coq differential correspondence for the polynomial builders"
+
+# --- gap round (seeded C04_m7): additions to the claimed level
+LEVEL_TEXT += ("; the finite-difference oracle works in the problem's own units: half of the cases are the generated well-conditioned problem re-expressed with outputs of size "
+               "1e-9 .. 1e4 (values * s, noise and process variance * s^2, thresholds * s) and inputs of size 1e-2 .. 1e2 (points and length scales * t), the step ladder, the floor "
+               "of the error normalisation and the underflow cut-off of EI-type values are scaled with them (every value / gradient pair of the property is covariant under this "
+               "change of units, so only an absolute constant in the code can tell the difference)")
+ASSUMPTIONS.append("reading of 'equals the numerical derivative' (DESIGN 11.5) carried to other magnitudes by the change of units: steps 1e-2..1e-5 times the input unit, error normalised by "
+                   "max(1e-3 * output unit / input unit, |g|), EI-type values below 1e-12 output units skipped")
